@@ -390,7 +390,14 @@ func runWaitCase(cs *WaitCase) (*waitObs, []finding) {
 	}
 	if cs.PreWaitNs > 0 {
 		// earlier run with the earlier wait, then re-configure through the builder method and forget what was measured
-		_, _ = flyt.Run(context.Background(), node, flyt.NewSharedStore())
+		pdone := make(chan struct{})
+		go func() { defer close(pdone); _, _ = flyt.Run(context.Background(), node, flyt.NewSharedStore()) }()
+		select {
+		case <-pdone:
+		case <-time.After(30 * time.Second):
+			add("hang:"+cs.Kind, "the earlier run (wait %v, budget %d) did not return within 30 s", time.Duration(cs.PreWaitNs), cs.N)
+			return &waitObs{MinGapNs: -1, Hung: true}, fs
+		}
 		wait = time.Duration(cs.WaitNs)
 		switch nb := node.(type) {
 		case *flyt.NodeBuilder:
@@ -528,6 +535,9 @@ func runWaitCase(cs *WaitCase) (*waitObs, []finding) {
 func init() {
 	register(&Engine{Prop: "C20", Doc: "retry wait honoured and interruptible", Run: runC20, Replay: replayC20})
 }
+
+// c20Hangs counts the cases of this process whose run did not return (each of them is a finding).
+var c20Hangs atomic.Int32
 
 func runC20(c *Cfg) {
 	r := c.Rep
@@ -728,7 +738,15 @@ func runC20(c *Cfg) {
 	}
 	parallelN(c, len(cases), 24, func(i int) {
 		cs := cases[i]
+		if c20Hangs.Load() >= 3 {
+			// three runs have already been reported as never returning: the rest of the list would only wait out the same 30 s again and again
+			r.Count("skipped_after_three_hangs", 1)
+			return
+		}
 		o, fs := runWaitCase(cs)
+		if o.Hung {
+			c20Hangs.Add(1)
+		}
 		if cs.Family == "interrupt-late" && !o.Hung {
 			slept := func(o *waitObs, w int64) bool { return o.ReturnAfterCancelNs >= w/2 }
 			cur := *cs
